@@ -116,19 +116,52 @@ Kinds  == {"data", "opts"}
 IdsOf(c) == DOMAIN c.data \cup DOMAIN c.opts
 Changed(pre, post, kind) == {id \in DOMAIN post[kind] : id \notin DOMAIN pre[kind] \/ post[kind][id] # pre[kind][id]}
 
+\* The definition that governs an id (by recency) must be exactly the one the run computed; an
+\* entry of the other kind that it superseded may or may not still be held (it can never be used).
+GovEq(pr, postc, runc) ==
+  /\ IdsOf(postc) = IdsOf(runc)
+  /\ \A id \in IdsOf(runc) :
+        LET k == Governing(runc, id, "recency") IN
+        /\ id \in DOMAIN postc[k]
+        /\ StripDef(pr, k, postc[k][id]) = StripDef(pr, k, runc[k][id])
+
 CacheFindings(buf, pre, post, run, matched) ==
   UNION {
     (IF \E id \in IdsOf(pre[pr]) : id \notin IdsOf(post[pr]) THEN {<<"C06", "cache", "evicted", pr>>} ELSE {})
+    \cup (IF matched /\ ~GovEq(pr, post[pr], run.tm[pr]) THEN {<<"C06", "cache", "mismatch", pr>>} ELSE {})
     \cup UNION {
       (IF \E id \in Changed(pre[pr], post[pr], kd) :
              ~OccursIn(EncDef(pr, kd, StripDef(pr, kd, post[pr][kd][id])), buf)
          THEN {<<"C06", "cache", "not-from-input", pr \o "." \o kd>>} ELSE {})
-      \cup (IF matched /\ StripMap(pr, kd, post[pr][kd]) # StripMap(pr, kd, run.tm[pr][kd])
-              THEN {<<"C06", "cache", "mismatch", pr \o "." \o kd>>} ELSE {})
       : kd \in Kinds}
     : pr \in Protos}
 
 -----------------------------------------------------------------------------
+\* First point at which an observed result departs from a run: <<item index, set index>> (set index 0:
+\* the items differ in kind / header / count; <<0, 0>>: no difference).
+SetMismatch(km, oi, ei) ==
+  LET n == Min2(Len(oi.sets), Len(ei.sets))
+      s == FirstIdx(n, LAMBDA q : IF ei.k = "v9" THEN ~V9SetMatch(km, oi.sets[q], ei.sets[q])
+                                  ELSE ~IxSetMatch(km, oi.sets[q], ei.sets[q]))
+  IN IF s # 0 THEN s ELSE IF Len(oi.sets) # Len(ei.sets) THEN n + 1 ELSE 0
+FirstMismatch(km, out, eout) ==
+  LET n == Min2(Len(out), Len(eout))
+      i == FirstIdx(n, LAMBDA q : ~ItemMatch(km, out[q], eout[q]))
+  IN IF i = 0 THEN (IF Len(out) # Len(eout) THEN <<n + 1, 0>> ELSE <<0, 0>>)
+     ELSE IF out[i].k = eout[i].k /\ eout[i].k \in {"v9", "ipfix"} THEN <<i, SetMismatch(km, out[i], eout[i])>>
+     ELSE <<i, 0>>
+
+\* A run that took named deviations explains the observed result up to a data set that is decoded
+\* under a template outside the supported widths (typically one the deviation itself produced):
+\* what the implementation does with such a set is not specified, so the rest of the packet is not compared.
+RelaxedOk(km, out, run) ==
+  LET m == FirstMismatch(km, out, run.out) IN
+  /\ run.used # {} /\ m[1] # 0 /\ m[2] # 0 /\ m[1] <= Len(run.out)
+  /\ LET ei == run.out[m[1]] IN
+       /\ m[2] <= Len(ei.sets)
+       /\ ei.sets[m[2]].k \in {"data", "odata"}
+       /\ ~Checkable(km, ei.k, ei.sets[m[2]])
+
 (***************************************************************************)
 (* Judge one observed call.                                                *)
 (*   buf, allow           the input and the allowed-version set            *)
@@ -145,16 +178,21 @@ Judge(buf, allow, preO, last, out, postO) ==
       ci    == FirstIdx(Len(DevCandidates),
                         LAMBDA q : LET r == RunCall(buf, pre, allow, DevCandidates[q]) IN OutMatch(km, out, r.out))
       matched == ci # 0
-      run   == IF ci <= 1 THEN ideal ELSE RunCall(buf, pre, allow, DevCandidates[ci])
+      ri    == IF matched THEN 0
+               ELSE FirstIdx(Len(DevCandidates),
+                             LAMBDA q : RelaxedOk(km, out, RunCall(buf, pre, allow, DevCandidates[q])))
+      run   == IF ci > 1 THEN RunCall(buf, pre, allow, DevCandidates[ci])
+               ELSE IF ri > 1 THEN RunCall(buf, pre, allow, DevCandidates[ri]) ELSE ideal
       conf  == RunConf(km, ideal)
-      devF  == IF matched /\ conf
+      devF  == IF (matched \/ ri # 0) /\ conf
                  THEN UNION {{<<p, "deviation", d, "">> : p \in DevProps(d)} : d \in run.used} ELSE {}
   IN [findings |->
         (IF acct = "" THEN {} ELSE {<<"C02", "framing", acct, "">>})
         \cup devF
-        \cup (IF matched THEN ContentFindings(km, out, run.out) ELSE Unexplained(km, out, ideal, allow))
+        \cup (IF matched THEN ContentFindings(km, out, run.out)
+             ELSE IF ri # 0 THEN {} ELSE Unexplained(km, out, ideal, allow))
         \cup CacheFindings(buf, pre, post, run, matched),
-      matched |-> matched, conf |-> conf, dev |-> IF matched THEN run.used ELSE {"?"},
+      matched |-> matched, conf |-> conf, dev |-> IF matched \/ ri # 0 THEN run.used ELSE {"?"},
       last |-> [v9 |-> run.tm.v9.last, ipfix |-> run.tm.ipfix.last],
       run |-> run, km |-> km]
 =============================================================================
